@@ -61,6 +61,8 @@ def impl_eval(case):
     if k == 'stream':
         recs = common.pc_records(case['lens'])
         f = KeepOpen()
+        if case.get('header'):
+            f.write(b'\xee' * case['header'])
         b = mciipm.Block1014(f)
         for r in recs:
             b.write(r)
@@ -71,7 +73,7 @@ def impl_eval(case):
             b.seek(0)
         else:
             b.close()
-        out = f.getvalue()
+        out = f.getvalue()[case.get('header', 0):]
         data = b''.join(recs)
         total = sum(case['lens'])
         return {'obs': f'ok {common.sig(drop_trailing_fill(out))}', 'violation': oracle_stream(data, out),
@@ -145,6 +147,15 @@ def explore(run, tier):
         cases.append({'k': 'oneshot', 'n': n})
     for lens in ([65536], [70000], [131073], [1012 * 1100 + 7], [500, 1012 * 1050], [30000, 40000, 1], [1012 * 64, 5]):
         cases.append({'k': 'stream', 'lens': lens, 'fin': 'f'})
+    # unblocked data that LOOKS blocked (0x40 0x40 where trailers would be): it must be blocked like any other data
+    for h in ['40' * 1014, '40' * 2028, '40' * 3000, '11' * 1012 + '4040', ('11' * 1012 + '4040') * 2,
+              ('11' * 1012 + '4040') * 2 + '22' * 50, ('11' * 1012 + '4040') * 3, '11' * 1012 + '4040' + '22' * 1012 + '4041']:
+        cases.append({'k': 'oneshot', 'hex': h})
+    # a blocker created on a file object that already holds a header (not a multiple of 1014): the blocked region that
+    # follows the header must be a whole number of blocks
+    for header in (1, 128, 1013, 1500):
+        for lens in ([5], [1012], [1000, 500], [2024, 1]):
+            cases.append({'k': 'stream', 'lens': lens, 'fin': 'f', 'header': header})
     for h in ['', '40', '40' * 1012, '40' * 1013, '00' * 1012 + '40', '40' * 2024]:
         cases.append({'k': 'oneshot', 'hex': h})
         cases.append({'k': 'stream', 'lens': [], 'fin': 'f'})
